@@ -295,6 +295,23 @@ def onWrite (s : St) (sn : Snap) : IO St := do
     | none =>
       mismatch s s!"write not explained by the model: impl log st={sn.st} res={sn.res} cs={sn.cs} C={sn.contracts.map (·.1)}; model pc={repr s.sys.pc} mem={repr s.sys.mem} trig={repr s.sys.trig} log={repr s.sys.log} active={repr s.sys.active}"
 
+/-- `E n ep=.. incubate <label>`: a resolver hands its output to the utxo nursery. -/
+def onIncubate (s : St) (label : String) : IO St := do
+  if !s.modelOk then return s
+  let s := norm s
+  match labelKey label with
+  | none => mismatch s s!"unknown label {label}"
+  | some k =>
+    match s.sys.active.find? (·.key == k) with
+    | some r =>
+      match resRes s.spec s.sys.facts r with
+      | .incubate =>
+        match resStep s.spec s.sys k with
+        | some s' => applyStep s s' s!"resolver {k} IncubateOutputs"
+        | none => mismatch s "model resolver blocked"
+      | _ => mismatch s s!"IncubateOutputs for {label} not expected by the model: {repr r}"
+    | none => mismatch s s!"IncubateOutputs for {label}: no such active resolver in the model"
+
 def onEnvWrite (s : St) (kind : String) : IO St := do
   if !s.modelOk then return s
   let s := norm s
@@ -482,7 +499,8 @@ def specContract (ws : List String) : Option Contract := do
   let k ← labelKey l
   let kd ← (kv? ws "kind").bind kindOf
   pure { key := k, kind := kd, twoStage := kv? ws "two" == some "1",
-         idx := (kvNat? ws "idx").getD 0, expiry := (kvNat? ws "expiry").getD 0 }
+         idx := (kvNat? ws "idx").getD 0, expiry := (kvNat? ws "expiry").getD 0,
+         legacy := kv? ws "legacy" == some "1" }
 
 def closeKindOf (s : String) : CloseKind :=
   match s with
@@ -629,6 +647,8 @@ def step (s : St) (line : String) : IO St := do
     let s := { s with evaluations := s.evaluations + 1, sawWrite := true }
     let s ← monitorWrite s sn false
     onWrite s sn
+  | "E" :: _ :: _ :: "incubate" :: l :: _ =>
+    onIncubate { s with evaluations := s.evaluations + 1 } l
   | "E" :: _ :: _ :: kind :: _ =>
     let s := { s with evaluations := s.evaluations + 1 }
     let s ← if kind == "markfullyclosed" then monitorWrite s s.prev true else pure s
